@@ -160,7 +160,7 @@ for n in sorted(mat):
     fv = (m.get("first_violation") or "").replace("|", "/")[:110]
     out.append("| %s | %s | %s | %s | %s | %s |" % (n, SUM[n], ob, mo, orc, fv))
 out.append("")
-out.append("All hundred and twenty are reported as `VIOLATION` by the quick tier of the property's check, all but three or four with a concrete replay (input, scenario or schedule on which the property fails). Two or three are reported with `no-failing-input-found` (C08-c's crash shows in some runs only): C14-b as a broken obligation (`conn_writes_locked`: a connection write outside `writeLk`; the tearing itself needs a 48 MB response written while the client is closed), C08-c and C18-c as a broken obligation (`sink_callbacks_locked`) and / or a trace the stream model rejects (the sink closed while a value was inside its callback) — there the concrete failure is a race between a panic and a blocked goroutine and shows up as a crash only in some runs. This is the state *after* strengthening, and the history matters for judging the checks. Round one: nine changes were at first missed or caught only sometimes (C05 C06 C07 C08 C13 C15 C16 C18 C19). Round two: eight were missed by the checks as they stood (C01-b C03-b C06-b C07-b C10-b C11-b C16-b C18-b), twelve caught unchanged. Round three (run after eleven scenario families had been extended in anticipation, from reading the changes' descriptions): two were still missed (C07-c C18-c), one made a check crash on its time limit (C14-c), five were caught by obligation or model only and got an oracle added (C03-c C08-c C09-c C12-c C20-c), twelve were caught with a replay. Round four (the sub-agents were told the three ideas already used per property and asked for a different mechanism): ten were missed (C02-d C03-d C05-d C07-d C08-d C12-d C13-d C15-d C17-d C20-d), four were caught by model or translator only (C06-d C09-d C11-d C18-d), six were caught with a replay. Round five (value-level changes, aimed at what the skeletons leave out): eight were missed (C01-e C03-e C04-e C05-e C10-e C12-e C15-e C20-e), seven were caught by an obligation, a model mismatch or a dying translator or harness only (C02-e C06-e C07-e C11-e C13-e C14-e C16-e — C07-e through an unrelated flake of the check itself, which was a false alarm in the making and is described in section 8), five with a replay (C08-e C09-e C17-e C18-e C19-e); after strengthening all twenty have a replay. Round six (again value-level): six were missed by the oracles as they stood (C06-f C11-f C14-f C15-f C16-f C19-f; three of them would have been reported through an obligation without a replay), C02-f was caught by scenarios its own check did not run, thirteen were caught with a replay by the checks unchanged — the first round in which a clear majority needed nothing new. The full matrix run at that point also exposed one detection that depends on the schedule (C16-b, 5 runs in 6): it is now backed by a regenerated fact; the last full run found a second one (C20-c, 5 in 6), answered with a deterministic input (remark under C20). Every miss was answered by a new scenario, input class or oracle clause, named in the remark under the property — never by loosening an oracle (two new oracle clauses that fired on the unchanged tree in round three were wrong and were corrected before use: the batch response count must allow id-null errors for undispatchable notifications, the alias clause must accept any refusal code) — and the matrix was re-run afterwards. Round four also showed what all the misses had in common: each changed the *structure* of a function the model abstracts (a new branch, a select split in two, a table update in a new place, a lock taken differently) without changing any input-output behaviour that a generator happened to reach. That is what the regenerated **code skeletons** answer (section 5: `effects_*` facts, `Skeletons.v`, the `cXX_code_skeletons` theorems): such a change now breaks a proof obligation of every property whose model abstracts the function, whether or not a scenario reaches it; the scenarios then supply the replay. Lessons: a sampled correspondence catches what its generators reach, so the generators are the thing to review (same-typed consecutive parameters, struct-valued streams, clients without handlers, wrapped errors, closing with values buffered, named scalar marshalers, a peer that swaps responses, option order, keepalive after a redial, context-less retry methods, more callers than an internal queue holds, channel ids after a reconnect, the empty client namespace, the tie between two arrivals, nil raw params, tag values other than `true`, ping-less clients with a timeout, option order once more, interface-typed channels, the `meta` member, empty codec messages, zero-length reads were all absent at some point); detections that depend on scheduling have to be made deterministic with gates (C08-a went from 1-in-3 to 4-in-4 that way); a change can make the harness itself hang or die, which must surface as a verdict, not as a machinery error.\n")
+out.append("All hundred and twenty are reported as `VIOLATION` by the quick tier of the property's check, all but three or four with a concrete replay (input, scenario or schedule on which the property fails). Two or three are reported with `no-failing-input-found` (C08-c's crash shows in some runs only): C14-b as a broken obligation (`conn_writes_locked`: a connection write outside `writeLk`; the tearing itself needs a 48 MB response written while the client is closed), C08-c and C18-c as a broken obligation (`sink_callbacks_locked`) and / or a trace the stream model rejects (the sink closed while a value was inside its callback) — there the concrete failure is a race between a panic and a blocked goroutine and shows up as a crash only in some runs. This is the state *after* strengthening, and the history matters for judging the checks. Round one: nine changes were at first missed or caught only sometimes (C05 C06 C07 C08 C13 C15 C16 C18 C19). Round two: eight were missed by the checks as they stood (C01-b C03-b C06-b C07-b C10-b C11-b C16-b C18-b), twelve caught unchanged. Round three (run after eleven scenario families had been extended in anticipation, from reading the changes' descriptions): two were still missed (C07-c C18-c), one made a check crash on its time limit (C14-c), five were caught by obligation or model only and got an oracle added (C03-c C08-c C09-c C12-c C20-c), twelve were caught with a replay. Round four (the sub-agents were told the three ideas already used per property and asked for a different mechanism): ten were missed (C02-d C03-d C05-d C07-d C08-d C12-d C13-d C15-d C17-d C20-d), four were caught by model or translator only (C06-d C09-d C11-d C18-d), six were caught with a replay. Round five (value-level changes, aimed at what the skeletons leave out): eight were missed (C01-e C03-e C04-e C05-e C10-e C12-e C15-e C20-e), seven were caught by an obligation, a model mismatch or a dying translator or harness only (C02-e C06-e C07-e C11-e C13-e C14-e C16-e — C07-e through an unrelated flake of the check itself, which was a false alarm in the making and is described in section 8), five with a replay (C08-e C09-e C17-e C18-e C19-e); after strengthening all twenty have a replay. Round six (again value-level): six were missed by the oracles as they stood (C06-f C11-f C14-f C15-f C16-f C19-f; three of them would have been reported through an obligation without a replay), C02-f was caught by scenarios its own check did not run, thirteen were caught with a replay by the checks unchanged — the first round in which a clear majority needed nothing new. The full matrix run at that point also exposed one detection that depends on the schedule (C16-b, 5 runs in 6): it is now backed by a regenerated fact; the last full run found a second one (C20-c, 5 in 6), answered with a deterministic input (remark under C20), and re-running the changes whose detection rests on a race found a third (C02-e, remark under C02). Every miss was answered by a new scenario, input class or oracle clause, named in the remark under the property — never by loosening an oracle (two new oracle clauses that fired on the unchanged tree in round three were wrong and were corrected before use: the batch response count must allow id-null errors for undispatchable notifications, the alias clause must accept any refusal code) — and the matrix was re-run afterwards. Round four also showed what all the misses had in common: each changed the *structure* of a function the model abstracts (a new branch, a select split in two, a table update in a new place, a lock taken differently) without changing any input-output behaviour that a generator happened to reach. That is what the regenerated **code skeletons** answer (section 5: `effects_*` facts, `Skeletons.v`, the `cXX_code_skeletons` theorems): such a change now breaks a proof obligation of every property whose model abstracts the function, whether or not a scenario reaches it; the scenarios then supply the replay. Lessons: a sampled correspondence catches what its generators reach, so the generators are the thing to review (same-typed consecutive parameters, struct-valued streams, clients without handlers, wrapped errors, closing with values buffered, named scalar marshalers, a peer that swaps responses, option order, keepalive after a redial, context-less retry methods, more callers than an internal queue holds, channel ids after a reconnect, the empty client namespace, the tie between two arrivals, nil raw params, tag values other than `true`, ping-less clients with a timeout, option order once more, interface-typed channels, the `meta` member, empty codec messages, zero-length reads were all absent at some point); detections that depend on scheduling have to be made deterministic with gates (C08-a went from 1-in-3 to 4-in-4 that way); a change can make the harness itself hang or die, which must surface as a verdict, not as a machinery error.\n")
 for pid in sorted(T):
     t = T[pid]; p = props[pid]; nt = NOTES[pid]
     out.append("### %s — %s\n" % (pid, p['title']))
